@@ -4,11 +4,12 @@ one canonical observation per line on stdout.  Lines starting with `#` are echoe
 only (links as a native executable).
 -/
 import Driver.Index
+import Driver.Construct
 
 open Driver
 
 def dispatch (ws : List String) : String :=
-  match cmdIndex ws with
+  match (cmdIndex ws <|> cmdConstruct ws) with
   | some s => s
   | none => "bad-op"
 
